@@ -32,6 +32,7 @@ with element items ``['elem', node_number]``, ``['null', '0'*32]``, ``['stub', u
 from __future__ import annotations
 
 import functools
+import math
 import re
 import struct
 from typing import Any, Optional
@@ -87,6 +88,9 @@ def _f32():
         st.floats(allow_nan=False, allow_infinity=False, width=32),
         st.floats(-1000.0, 1000.0, allow_nan=False, width=32),
         st.sampled_from([0.0, 1.0, -1.0, 0.5, 0.1015625, 16384.0, -2.5]),
+        # both signed zeros (equal, same hash, different bits) and 1.0 (== True == 1): values that compare equal but
+        # are not the same must stay apart when they meet in one document / one process
+        st.sampled_from([0.0, -0.0, -0.0, 1.0]),
         # magnitudes whose text form has many digits or (with a different formatter) an exponent: every decade up to the
         # float32 maximum and down to the smallest normal, with a mantissa of 1, 1.5 or 9.999...
         st.builds(lambda m, e, sign: gens.to_f32(sign * min(m * 10.0 ** e, 3.4e38)),
@@ -115,7 +119,7 @@ def _item_strategies(text) -> dict:
     f = _f32()
     return {
         'element': _ELEM_ITEM,
-        'int': st.one_of(st.integers(-2 ** 31, 2 ** 31 - 1), st.integers(-3, 300)),
+        'int': st.one_of(st.integers(-2 ** 31, 2 ** 31 - 1), st.integers(-3, 300), st.sampled_from([0, 1])),
         'float': f,
         'bool': st.booleans(),
         'string': text,
@@ -132,6 +136,9 @@ def _item_strategies(text) -> dict:
 
 
 COMMON_ATTR_NAMES = ['id', 'ID', 'keyName', 'subkeys', 'value', 'Children', 'operators', 'functionName', 'x']
+# Characters for which str.lower() != str.casefold() (keys are documented to be casefolded), and names using them.
+FOLD_CHARS = '\u00df\u017f\u03c2\u0149\u01f0\ufb01\ufb06\u1e9e\u0390'
+FOLD_ATTR_NAMES = ['Ma\u00dfe', '\u017fize', '\u039f\u0394\u039f\u03c2', '\u0149', '\u01f0x', '\ufb01le', 'STRA\u1e9eE']
 COMMON_TYPES = ['DmElement', 'DmeParticleSystemDefinition', 'DmeParticleOperator', 'DmElementLeaf', 'dmelement', '']
 
 
@@ -194,7 +201,15 @@ def _graphs(max_elems, max_attrs, max_array, ascii_only, nul, vtypes, kv2_safe_t
     choices = [typed(vt) for vt in vtypes]
     if 'element' in vtypes:
         choices += [typed('element')] * max(1, len(vtypes) // 2 - 1)
-    attr_name = st.one_of(text, text, st.sampled_from(COMMON_ATTR_NAMES)).filter(lambda s: s.casefold() != 'name')
+    # Names are drawn independently of the value type, so every kind of name meets every kind of value (in particular
+    # element values, which the nested text layout writes inline through a separate code path).
+    name_choices = [text, text, st.sampled_from(COMMON_ATTR_NAMES)]
+    if not ascii_only:
+        name_choices.append(st.one_of(
+            st.sampled_from(FOLD_ATTR_NAMES),
+            st.text(FOLD_CHARS + 'aZ', min_size=1, max_size=4),
+        ))
+    attr_name = st.one_of(name_choices).filter(lambda s: s.casefold() != 'name')
     type_name = st.one_of(text, st.sampled_from(COMMON_TYPES))
     if kv2_safe_types:
         type_name = type_name.filter(lambda s: not type_is_kv2_keyword(s))
@@ -513,6 +528,13 @@ def canon_graph(root) -> dict:
             entry = [attr.name, vt, attr.is_array, val]
             if key != attr.name.casefold():
                 entry.append(['badkey', key])
+            else:
+                try:
+                    found = elem[attr.name]
+                except KeyError:
+                    found = None
+                if found is not attr:
+                    entry.append(['badlookup', attr.name])
             attrs.append(entry)
         nodes.append({'type': elem.type, 'name': elem.name, 'uuid': elem.uuid.hex, 'attrs': attrs})
     return {'nodes': nodes}
@@ -522,7 +544,9 @@ def _float_close(a: Any, b: Any, tol: float, circle: bool) -> bool:
     if type(a) is not float or type(b) is not float:
         return False
     if a == b:
-        return True
+        # Exact (binary) comparison is bitwise: +0.0 and -0.0 are different float32 values.  Angles are exempt (an
+        # Angle normalises its components on construction) and so is text ("to 6 decimals").
+        return tol > 0.0 or circle or math.copysign(1.0, a) == math.copysign(1.0, b)
     if tol <= 0.0:
         return False
     d = abs(a - b)
@@ -587,6 +611,7 @@ def graph_facts(canon: dict) -> dict:
         'empty_array': False, 'stub': False, 'stub_in_array': False, 'null': False, 'null_in_array': False,
         'non_ascii': False, 'has_time': False, 'nul': False, 'cells': set(), 'indegree': indeg,
         'name_removed': set(), 'name_removed_with_attrs': False, 'edits': set(),
+        'zero_signs': set(), 'fold_name_elem': [],
     }
 
     def text(s):
@@ -615,7 +640,14 @@ def graph_facts(canon: dict) -> dict:
             if vt == 'string':
                 for s in (val if is_arr else [val]):
                     text(s)
+            if vt == 'float' or (vt in FLOAT_LEN and vt != 'qangle'):
+                for item in (val if is_arr else [val]):
+                    for x in ([item] if vt == 'float' else item):
+                        if x == 0.0:
+                            facts['zero_signs'].add(math.copysign(1.0, x))
             if vt == 'element':
+                if nm.lower() != nm.casefold():
+                    facts['fold_name_elem'].append([x[1] for x in (val if is_arr else [val]) if x[0] == 'elem'])
                 for item in (val if is_arr else [val]):
                     if item[0] == 'elem':
                         indeg[item[1]] += 1
@@ -631,6 +663,9 @@ def graph_facts(canon: dict) -> dict:
                         if is_arr:
                             facts['null_in_array'] = True
     facts['shared'] = any(d >= 2 for d in indeg[1:]) or indeg[0] >= 1
+    facts['signed_zeros'] = len(facts['zero_signs']) == 2
+    # an element value under a name with lower() != casefold() that the nested text layout writes inline
+    facts['fold_name_inline'] = any(t != 0 and indeg[t] == 1 for targets in facts['fold_name_elem'] for t in targets)
     # cycle: iterative three-colour DFS
     colour = [0] * len(nodes)
     for start in range(len(nodes)):
